@@ -308,6 +308,9 @@ def check_use(prog: Program, res: Result, rule: str = "C17-use") -> None:
 def check(prog: Program, res: Result) -> None:
     check_topo(prog, res)
     check_use(prog, res)
+    # the order handed to group_instances_batch reaches every sample unchanged (not narrowed by earlier samples)
+    from . import _batch
+    _batch.check_per_sample_lists(prog, res, "C17-use", ["sleap_nn.inference.paf_grouping:group_instances_batch"])
     res.assumptions.append("the exhaustive enumeration of trees and edge listings is execution and is not done")
 
 
